@@ -111,6 +111,8 @@ class MapSpec(H.Spec):
                 for after in (False, True):
                     for rep in (True, False):
                         ops.append(('add_pos', k, 2, pk, after, rep))
+            if k == 'a':
+                ops.append(('set', k, None))
             ops.append(('add_both', k, 2, 0, 'a'))
             ops.append(('add_plain', k, 2, True))
             ops.append(('add_plain', k, 2, False))
@@ -131,6 +133,9 @@ class MapSpec(H.Spec):
                 ops.append(('m_append', k))
                 ops.append(('m_append_v', k, 2, False))
                 ops.append(('m_append_v', k, 2, True))
+            # None (a null tag, written tag:N) and other falsy values are values like any other: stored as given, on every path
+            ops.append(('m_append_v', 'a', None, True))
+            ops.append(('m_extend', [['b', None]], True))
             ops.append(('m_extend', [['a', 2], ['d', 1]], True))
             ops.append(('m_extend', [['b', 2], ['b', 1]], True))
             ops.append(('m_extend', [['c', 2], ['a', 1]], False))
